@@ -133,7 +133,7 @@ def build(cls, method, n, order, gen, rec):
 def check_args(cls, method, n, x, rec_args, hmax, first_order):
     """Return list of (kind, detail) violations.  x: 1-d float array; hmax: per-coordinate array."""
     bad = []
-    x = np.asarray(x, dtype=float)
+    x = np.asarray(x, dtype=complex if np.iscomplexobj(x) else float)
     width = 2.0 if (cls == 'Hessian' or method == 'central2') else 1.0
     tol = 4 * EPS * (np.abs(x) + width * hmax)
     offs = []
@@ -190,12 +190,14 @@ def complex_first_order(method, n, order):
     return order is None or order < 4
 
 
-def run_case(case, form=None, xshape=None):
+def run_case(case, form=None, xshape=None, ximag=None):
     """Returns (status, violations, n_args) for one case."""
     (cls, method, n, order), gen, dim, xtag = case
     import numdifftools.finite_difference as fdm
     fw.fresh_library_state()
     x = make_x(xtag, dim)
+    if ximag is not None:
+        x = x + 1j * ximag          # a complex point (an analytic f can be differentiated there with real steps)
     kind = {'Derivative': 'elementwise', 'Jacobian': 'vector'}.get(cls, 'scalarfun')
     rec = Recorder(kind, form, x.copy())
     import warnings
@@ -268,6 +270,30 @@ def work_shapes(chunk):
             acc.violation('C05:%s:%s:%s:x-given-as-%s' % (cls, method, kind, shp[0]),
                           {'cfg': [cls, method, n, order], 'gen': list(gen), 'dim': dim, 'x': xtag, 'xshape': [shp[0], list(shp[1])]},
                           'x given as %s of shape %r: %s' % (shp[0], shp[1], detail), rank=dim * 100 + (order or 0) + n)
+    return acc
+
+
+# ---------------------------------------------------------------------------------------------
+# complex points with the real-step methods: the displacement clauses (distance, one / two coordinates, real and correctly
+# signed displacement) read the same; the point keeps its imaginary part
+
+def complex_cases():
+    return [((cls, method, 1 if cls in ('Derivative', 'Gradient', 'Jacobian') else 2, None if cls == 'Hessian' else 2), gen,
+             1 if cls == 'Derivative' else 2, xt)
+            for cls in CLASSES for method in ('central', 'forward', 'backward') for gen in (('default', {}), ('scalar', {'step': 1e-3}))
+            for xt in ('a', 'z')]
+
+
+def work_complex_points(chunk):
+    acc = fw.Acc()
+    for case in chunk:
+        (cls, method, n, order), gen, dim, xtag = case
+        status, bad, nargs = run_case(case, None, None, 2.0)
+        acc.case(('complex-x', case), nontrivial=(nargs >= 2), cell=['complex-x/%s' % cls], outcome=(status, nargs, not bad))
+        for kind, detail in bad[:1]:
+            acc.violation('C05:%s:%s:%s:complex-point' % (cls, method, kind),
+                          {'cfg': [cls, method, n, order], 'gen': list(gen), 'dim': dim, 'x': xtag, 'ximag': 2.0},
+                          'x = point + 2j: %s' % detail, rank=dim * 100 + n)
     return acc
 
 
@@ -391,10 +417,11 @@ def run(ctx):
     acc.merge(ctx.pmap(work_setters, setter_cases(), chunk=4))
     acc.merge(ctx.pmap(work_values, value_cases(), chunk=30))
     acc.merge(ctx.pmap(work_shapes, shape_cases(), chunk=20))
+    acc.merge(ctx.pmap(work_complex_points, complex_cases(), chunk=10))
     for c in cases[:3] + cases[len(cases) // 2:len(cases) // 2 + 3]:
         acc.sample({'cfg': c[0], 'gen': c[1], 'dim': c[2], 'x': make_x(c[3], c[2])})
     cells = ['%s/%s' % (cls, m) for cls in CLASSES for m in methods_of(cls)] + ['setter/Derivative', 'setter/Jacobian'] + \
-        ['values/%s' % f for f in VALUE_FORMS] + ['values/%s' % c for c in CLASSES] + ['xshape/%s%r' % shp for shp in XSHAPES]
+        ['values/%s' % f for f in VALUE_FORMS] + ['values/%s' % c for c in CLASSES] + ['xshape/%s%r' % shp for shp in XSHAPES] + ['complex-x/%s' % c for c in CLASSES]
     rule = ('full product (class, method, n, order) x generator option vectors with <= %d deviations '
             'from the defaults (+ default, scalar steps) x dimension x x-pool; every argument passed '
             'to the recording user function is checked against exact admissibility predicates; '
@@ -417,6 +444,6 @@ def replay(case):
     gen = (case['gen'][0], case['gen'][1])
     c = (cfg, gen, case['dim'], case['x'])
     xs = case.get('xshape')
-    status, bad, nargs = run_case(c, case.get('values'), None if xs is None else (xs[0], tuple(xs[1])))
+    status, bad, nargs = run_case(c, case.get('values'), None if xs is None else (xs[0], tuple(xs[1])), case.get('ximag'))
     text = 'case=%r status=%s evaluations=%d violations=%r' % (c, status, nargs, bad[:3])
     return (not bad), text
